@@ -1,4 +1,5 @@
 import AtreeModel.Dump
+import AtreeModel.StorageOps
 import AtreeModel.Replay.Common
 /-
   Replays the array stream of the harness on the model and compares every observation,
@@ -14,6 +15,13 @@ structure ArrState where
   aux : AList SlabID Elem := []        -- large-value slabs created so far
   pending : List String := []          -- lines the model expects next (OBS / EFF / SLB)
   rep : Report := {}
+  -- persistence (C03): the storage state machine over slab dumps, and the last committed world
+  store : St String String := St.init
+  snapArrs : AList Nat Arr := []
+  snapAux : AList SlabID Elem := []
+
+/-- slabs and registers are their canonical dumps; encoding and decoding are the identity -/
+def dumpCodec : Codec String String := { enc := some, dec := fun _ b => some b, size := fun _ => 0 }
 
 namespace ArrState
 
@@ -32,10 +40,30 @@ def effectLines (s : ArrState) (a : Arr) (c : Ctx) : List String :=
       | some e => "SLB " ++ Dump.storableSlab id e
       | none => s!"SLB MISSING({id.render})")
 
+/-- the dump of slab `id` in the post-state (tree of `a` or a large-value slab) -/
+def slabDump (aux : AList SlabID Elem) (a : Arr) (id : SlabID) : String :=
+  match Dump.findSlab a.ty id a.d a.root with
+  | some str => str
+  | none =>
+    match AList.find? aux id with
+    | some e => Dump.storableSlab id e
+    | none => s!"MISSING({id.render})"
+
+/-- feed an effect log into the storage state machine (stored slabs by their post-state dump:
+    the write set holds pointers to the live slab objects) -/
+def applyEffects (st : St String String) (aux : AList SlabID Elem) (a : Arr) (effs : List Eff) : St String String :=
+  effs.foldl (fun st e =>
+    match e with
+    | .alloc _ _ => st
+    | .store id => match st.store id (slabDump aux a id) with | .ok st' => st' | .error _ => st
+    | .remove id => match st.remove id with | .ok st' => st' | .error _ => st) st
+
 def commit (s : ArrState) (h : Nat) (a : Arr) (c : Ctx) (obs : String) : ArrState :=
+  let aux := c.created.foldl (fun m p => AList.insert m p.1 p.2) s.aux
   { s with alloc := AList.insert s.alloc a.addr c.ctr,
            arrs := AList.insert s.arrs h a,
-           aux := c.created.foldl (fun m p => AList.insert m p.1 p.2) s.aux,
+           aux := aux,
+           store := applyEffects s.store aux a c.eff,
            pending := obs :: s.effectLines a c }
 
 def resolve (s : ArrState) (e : Elem) : Elem :=
@@ -122,8 +150,21 @@ def stepLine (s : ArrState) (line : String) (lineNo : Nat) : ArrState :=
     applyOp { s with pending := [] } name (fields rest) lineNo
   | "DSP" :: rest =>
     match (fget (fields rest) "id").bind parseID with
-    | some id => { s with aux := AList.erase s.aux id }
+    | some id => { s with aux := AList.erase s.aux id,
+                          store := match s.store.remove id with | .ok st' => st' | .error _ => s.store }
     | none => s
+  | "COMMIT" :: _ =>
+    let r := s.store.fastCommit dumpCodec (fun _ => false)
+    let logParts := r.log.map (fun c => match c with
+      | .store id _ => "S:" ++ id.render
+      | .remove id => "R:" ++ id.render)
+    let ids := St.sortIDs (AList.keys r.st.base)
+    let regs := ids.filterMap (fun id => (AList.find? r.st.base id).map (fun d => "REG " ++ d))
+    { s with store := r.st, snapArrs := s.arrs, snapAux := s.aux,
+             pending := [(match r.err with | none => "OBS ok" | some _ => "OBS err"),
+                         "LOG " ++ (if logParts.isEmpty then "-" else " ".intercalate logParts)] ++ regs ++ ["ENDREG"] }
+  | "CRASH" :: _ =>
+    { s with arrs := s.snapArrs, aux := s.snapAux, store := St.fresh s.store.base s.store.alloc, pending := [] }
   | "FULL" :: hs :: rest =>
     let h := (fnat (fields [hs]) "h").getD 0
     match AList.find? s.arrs h with
@@ -135,7 +176,7 @@ def stepLine (s : ArrState) (line : String) (lineNo : Nat) : ArrState :=
       if mine == theirs then s
       else s.note s!"line {lineNo}: FULL differs\n  model: {mine}\n  impl : {theirs}"
   | kind :: _ =>
-    if kind == "OBS" || kind == "EFF" || kind == "SLB" then
+    if kind == "OBS" || kind == "EFF" || kind == "SLB" || kind == "LOG" || kind == "REG" || kind == "ENDREG" then
       match s.pending with
       | [] => s.note s!"line {lineNo}: implementation has extra line: {line}"
       | p :: ps =>
